@@ -108,6 +108,9 @@ func verifC11Alphabet(full bool) []verifC11Op {
 	for _, m := range []storage.ModeSet{storage.ModeSetPin, storage.ModeSetUnpin, storage.ModeSetRemove} {
 		for a := 0; a < 3; a++ {
 			for _, r := range roots {
+				if r >= 0 && !full && m != storage.ModeSetRemove {
+					continue // quick tier: file context on Pin/Unpin only touches gc bookkeeping
+				}
 				ops = append(ops, verifC11Op{kind: verifC11Set, set: m, addrs: []int{a}, root: r,
 					name: fmt.Sprintf("Set(%s,c%d,%s)", m, a, rn(r))})
 			}
@@ -312,7 +315,7 @@ func (m verifC11Model) String() string { return fmt.Sprintf("present%v pins%v", 
 // The same exploration runs twice: over the real leveldb driver (shallower) and
 // over the cheap ordered-map driver (deeper).
 func TestVerifC11Leveldb(t *testing.T) {
-	verifC11Run(t, "leveldb", mc.EnvInt("VERIF_C11_DEPTH_LDB", mc.Pick(3, 5)))
+	verifC11Run(t, "leveldb", mc.EnvInt("VERIF_C11_DEPTH_LDB", mc.Pick(2, 4)))
 }
 
 func TestVerifC11Mem(t *testing.T) {
@@ -336,22 +339,34 @@ func verifC11Run(t *testing.T, drv string, depth int) {
 		"observations": "after every step: Has, HasMulti, Get(Lookup), Get(Sync), GetMulti(Lookup) on present subset and on all, data-index dump",
 		"capacity":     "2^40 (GC out of reach)",
 	}}, func(x *mc.X) {
+		var open []*verifC11Store
+		defer func() {
+			for _, o := range open {
+				o.close(x)
+			}
+		}()
 		s := verifC11New(x, drv)
-		defer s.close(x)
+		open = append(open, s)
 		var m verifC11Model
 		var hist []verifC11Op
 		interesting := false
 
 		for step := 0; step < depth; step++ {
 			op := ops[x.Choose(len(ops))]
+			// A step that is only replayed to reach the frontier was fully
+			// checked by the earlier execution that first took it (that
+			// execution went on past this step, so every check here passed):
+			// apply it, advance the model, skip twin + observations.
+			replayed := x.Replaying()
 			before := m
+			short := strings.SplitN(op.name, ",", 2)[0] + ")"
 
 			// differential twin for multi-chunk puts: same history, then singles
 			var twin *verifC11Store
 			var twinRes []verifC11Res
-			var td verifC11Dump
-			if op.kind == verifC11Put && len(op.addrs) > 1 {
+			if !replayed && op.kind == verifC11Put && len(op.addrs) > 1 {
 				twin = verifC11New(x, drv)
+				open = append(open, twin)
 				for _, h := range hist {
 					twin.apply(u, h)
 				}
@@ -360,26 +375,31 @@ func verifC11Run(t *testing.T, drv string, depth int) {
 					single.addrs = []int{a}
 					twinRes = append(twinRes, twin.apply(u, single))
 				}
-				td = twin.dump(x, u)
-				twin.close(x)
 			}
 
 			r := s.apply(u, op)
 			hist = append(hist, op)
 			x.Logf("%s -> exist=%v err=%v", op.name, r.exist, r.err)
-			d := s.dump(x, u)
-			x.Check(d.foreign == "", "foreign-address-in-index", "index contains address %s outside the universe", d.foreign)
+			var dcache *verifC11Dump
+			dump := func() *verifC11Dump {
+				if dcache == nil {
+					d := s.dump(x, u)
+					dcache = &d
+				}
+				return dcache
+			}
 
 			// ---- model transition ----
 			failed := r.err != nil
 			switch {
 			case failed && (op.kind == verifC11Put || op.kind == verifC11Set):
 				// The statement is silent about failed operations: adopt the
-				// store's state for the touched addresses (weakest reading),
-				// but count it when a failed operation changed something.
+				// store's state for the addresses the call named (weakest
+				// reading), but count it when a failed call changed something.
 				x.Tag("failed-op")
-				x.Tag("failed-" + strings.SplitN(op.name, ",", 2)[0])
+				x.Tag("failed-" + short)
 				changed := false
+				d := dump()
 				for _, a := range op.addrs {
 					_, has := d.data[a]
 					if has != m.present[a] || d.pins[a] != m.pins[a] {
@@ -392,37 +412,45 @@ func verifC11Run(t *testing.T, drv string, depth int) {
 				}
 			case op.kind == verifC11Put:
 				x.Check(len(r.exist) == len(op.addrs), "put-exist-length", "%s: %d exist flags for %d chunks", op.name, len(r.exist), len(op.addrs))
+				// "putting several chunks in one call has the same effect as
+				// putting them one at a time": the model runs the chunks of a
+				// call one by one.
+				var lo, hi [3]uint64
+				lo, hi = m.pins, m.pins
 				for i, a := range op.addrs {
-					dup := false
-					for _, p := range op.addrs[:i] {
-						dup = dup || p == a
-					}
-					want := before.present[a] || dup
+					want := m.present[a]
 					if want {
 						x.Tag("put-of-present-chunk")
 						interesting = true
 					}
 					x.Check(r.exist[i] == want, fmt.Sprintf("put-exist-flag-wrong/%s", op.put),
 						"%s: exist[%d]=%v, model says %v (%s)", op.name, i, r.exist[i], want, before)
-					if dup {
-						continue
-					}
-					m.present[a] = true
 					switch op.put {
 					case storage.ModePutUploadPin:
-						m.pins[a]++
+						lo[a]++
+						hi[a]++
 					case storage.ModePutRequestPin:
-						if !before.present[a] {
-							m.pins[a]++
-						} else {
-							// open corner (pin semantics of a request-pin put of a
-							// chunk that is already stored): accept p or p+1.
-							p := d.pins[a]
-							x.Check(p == before.pins[a] || p == before.pins[a]+1, "requestpin-existing-pin-out-of-range",
-								"%s: pin counter of c%d went %d -> %d", op.name, a, before.pins[a], p)
-							m.pins[a] = p
+						hi[a]++
+						if !m.present[a] {
+							lo[a]++
 						}
+						// else open corner (does a request-pin put of an already
+						// stored chunk pin it?): accept p or p+1, adopt below.
 					}
+					m.present[a] = true
+				}
+				for a := range lo {
+					if lo[a] == hi[a] {
+						m.pins[a] = lo[a]
+						continue
+					}
+					p := dump().pins[a]
+					x.Check(lo[a] <= p && p <= hi[a], "requestpin-existing-pin-out-of-range",
+						"%s: pin counter of c%d went %d -> %d, expected %d..%d", op.name, a, before.pins[a], p, lo[a], hi[a])
+					if p < hi[a] {
+						x.Tag("requestpin-of-present-chunk-did-not-pin")
+					}
+					m.pins[a] = p
 				}
 			case op.kind == verifC11Set:
 				a := op.addrs[0]
@@ -431,14 +459,14 @@ func verifC11Run(t *testing.T, drv string, depth int) {
 					if before.present[a] {
 						m.pins[a]++
 					} else { // successful pin of an absent chunk: statement silent, adopt
-						m.pins[a] = d.pins[a]
+						m.pins[a] = dump().pins[a]
 						x.Tag("pin-of-absent-chunk-succeeded")
 					}
 				case storage.ModeSetUnpin:
 					if before.pins[a] > 0 {
 						m.pins[a]--
 					} else {
-						m.pins[a] = d.pins[a]
+						m.pins[a] = dump().pins[a]
 						x.Tag("unpin-of-unpinned-chunk-succeeded")
 					}
 				case storage.ModeSetRemove:
@@ -475,9 +503,13 @@ func verifC11Run(t *testing.T, drv string, depth int) {
 					}
 				}
 			}
+			if replayed {
+				continue
+			}
 
 			// ---- observation through the public API, compared with the model ----
-			after := strings.SplitN(op.name, ",", 2)[0] + ")"
+			d := dump()
+			x.Check(d.foreign == "", "foreign-address-in-index", "index contains address %s outside the universe", d.foreign)
 			bg := context.Background()
 			var all, pres []boson.Address
 			for a := range u {
@@ -488,47 +520,47 @@ func verifC11Run(t *testing.T, drv string, depth int) {
 				has, err := s.db.Has(bg, storage.ModeHasChunk, u[a].addr)
 				x.NoErr(err, "Has")
 				if has && !m.present[a] {
-					x.Fail("absent-chunk-reported-present/after-"+after, "Has(c%d)=true, model %s", a, m)
+					x.Fail("absent-chunk-reported-present/after-"+short, "Has(c%d)=true, model %s", a, m)
 				}
 				if !has && m.present[a] {
-					x.Fail("present-chunk-reported-absent/after-"+after, "Has(c%d)=false, model %s", a, m)
+					x.Fail("present-chunk-reported-absent/after-"+short, "Has(c%d)=false, model %s", a, m)
 				}
 				for _, gm := range []storage.ModeGet{storage.ModeGetLookup, storage.ModeGetSync} {
 					ch, err := s.db.Get(bg, gm, u[a].addr)
 					if m.present[a] {
-						x.Check(err == nil, "present-chunk-get-fails/after-"+after, "Get(%s,c%d): %v, model %s", gm, a, err, m)
-						x.Check(ch.Address().Equal(u[a].addr) && bytes.Equal(ch.Data(), u[a].data), "bytes-differ/after-"+after,
+						x.Check(err == nil, "present-chunk-get-fails/after-"+short, "Get(%s,c%d): %v, model %s", gm, a, err, m)
+						x.Check(ch.Address().Equal(u[a].addr) && bytes.Equal(ch.Data(), u[a].data), "bytes-differ/after-"+short,
 							"Get(%s,c%d) returned %x, stored %x", gm, a, ch.Data(), u[a].data)
 					} else {
-						x.Check(err != nil, "absent-chunk-get-succeeds/after-"+after, "Get(%s,c%d) succeeded, model %s", gm, a, m)
+						x.Check(err != nil, "absent-chunk-get-succeeds/after-"+short, "Get(%s,c%d) succeeded, model %s", gm, a, m)
 						if err != storage.ErrNotFound {
 							x.Tag("get-absent-error-not-ErrNotFound")
 						}
 					}
 				}
 				stored, inIdx := d.data[a]
-				x.Check(inIdx == m.present[a], "data-index-differs-from-model/after-"+after, "c%d in data index: %v, model %s", a, inIdx, m)
+				x.Check(inIdx == m.present[a], "data-index-differs-from-model/after-"+short, "c%d in data index: %v, model %s", a, inIdx, m)
 				if inIdx {
-					x.Check(bytes.Equal(stored, u[a].data), "stored-bytes-differ/after-"+after, "c%d stored as %x want %x", a, stored, u[a].data)
+					x.Check(bytes.Equal(stored, u[a].data), "stored-bytes-differ/after-"+short, "c%d stored as %x want %x", a, stored, u[a].data)
 				}
 			}
 			hm, err := s.db.HasMulti(bg, storage.ModeHasChunk, all...)
 			x.NoErr(err, "HasMulti")
 			for a := range u {
-				x.Check(len(hm) == 3 && hm[a] == m.present[a], "hasmulti-differs-from-model/after-"+after, "HasMulti=%v model %s", hm, m)
+				x.Check(len(hm) == 3 && hm[a] == m.present[a], "hasmulti-differs-from-model/after-"+short, "HasMulti=%v model %s", hm, m)
 			}
 			if len(pres) > 0 {
 				chs, err := s.db.GetMulti(bg, storage.ModeGetLookup, pres...)
-				x.Check(err == nil && len(chs) == len(pres), "getmulti-present-fails/after-"+after, "GetMulti(present set): %d chunks, %v; model %s", len(chs), err, m)
+				x.Check(err == nil && len(chs) == len(pres), "getmulti-present-fails/after-"+short, "GetMulti(present set): %d chunks, %v; model %s", len(chs), err, m)
 				for i := range chs {
 					a := verifC11Idx(u, pres[i].Bytes())
-					x.Check(chs[i].Address().Equal(pres[i]) && bytes.Equal(chs[i].Data(), u[a].data), "getmulti-bytes-differ/after-"+after,
+					x.Check(chs[i].Address().Equal(pres[i]) && bytes.Equal(chs[i].Data(), u[a].data), "getmulti-bytes-differ/after-"+short,
 						"GetMulti[%d] returned %x", i, chs[i].Data())
 				}
 			}
 			if len(pres) < len(all) {
 				_, err := s.db.GetMulti(bg, storage.ModeGetLookup, all...)
-				x.Check(err != nil, "getmulti-with-absent-succeeds/after-"+after, "GetMulti(all) succeeded, model %s", m)
+				x.Check(err != nil, "getmulti-with-absent-succeeds/after-"+short, "GetMulti(all) succeeded, model %s", m)
 			}
 
 			// ---- batch ≡ singles ----
@@ -538,11 +570,8 @@ func verifC11Run(t *testing.T, drv string, depth int) {
 				if op.addrs[0] == op.addrs[1] {
 					shape = "duplicate"
 				}
-				ctxs := "noctx"
-				if op.root >= 0 {
-					ctxs = "filectx"
-				}
-				site := fmt.Sprintf("%s/%s/%s", op.put, shape, ctxs)
+				site := fmt.Sprintf("%s/%s", op.put, shape)
+				td := twin.dump(x, u)
 				singlesFailed := 0
 				for _, tr := range twinRes {
 					if tr.err != nil {
@@ -551,7 +580,7 @@ func verifC11Run(t *testing.T, drv string, depth int) {
 				}
 				switch {
 				case r.err != nil && singlesFailed == 0:
-					x.Fail("batch-put-fails-where-singles-succeed/"+site, "%s failed (%v) but putting the same chunks one at a time succeeds", op.name, r.err)
+					x.Fail("batch-put-fails-where-singles-succeed/"+site, "%s failed (%v) and stored nothing, but putting the same chunks one at a time succeeds and stores them", op.name, r.err)
 				case r.err == nil && singlesFailed > 0:
 					x.Fail("batch-put-succeeds-where-a-single-fails/"+site, "%s succeeded but %d of the single puts failed", op.name, singlesFailed)
 				case r.err != nil:
@@ -568,9 +597,37 @@ func verifC11Run(t *testing.T, drv string, depth int) {
 						x.Check(bok == sok && bytes.Equal(bs, ss), "batch-stored-chunks-differ-from-singles/"+site,
 							"%s: c%d batch stored=%v singles stored=%v", op.name, a, bok, sok)
 					}
+					// Pin counters are not an observable of the statement by
+					// themselves; they are one as soon as removals tell them
+					// apart (a removal takes one pin, the chunk goes with the
+					// last one): p != q with max(p,q) >= 2. Demonstrate it.
 					for a := range u {
-						x.Check(d.pins[a] == td.pins[a], "batch-pin-count-differs-from-singles/"+site,
-							"%s: pin counter of c%d is %d after the batch, %d after the same puts one at a time", op.name, a, d.pins[a], td.pins[a])
+						p, q := d.pins[a], td.pins[a]
+						if p == q {
+							continue
+						}
+						if p < 2 && q < 2 {
+							x.Tag("batch-pin-count-differs-but-not-observable-by-removal")
+							continue
+						}
+						n := p
+						if q < p {
+							n = q
+						}
+						if n == 0 {
+							n = 1
+						}
+						rm := verifC11Op{kind: verifC11Set, set: storage.ModeSetRemove, addrs: []int{a}, root: -1}
+						for i := uint64(0); i < n; i++ {
+							s.apply(u, rm)
+							twin.apply(u, rm)
+						}
+						hb, _ := s.db.Has(bg, storage.ModeHasChunk, u[a].addr)
+						hs, _ := twin.db.Has(bg, storage.ModeHasChunk, u[a].addr)
+						x.Check(hb == hs, "batch-pin-count-differs-from-singles/"+site,
+							"%s leaves pin counter %d on c%d, the same puts one at a time leave %d; after %d x Set(Remove,c%d) the chunk is present=%v in the batch store and present=%v in the singles store",
+							op.name, p, a, q, n, a, hb, hs)
+						x.Broken("pin counters %d vs %d on c%d were not told apart by %d removals", p, q, a, n)
 					}
 				}
 			}
